@@ -288,6 +288,11 @@ def run_case(ctx, g, rng):
                     violation(["C15"], "ref:converter-context", "unknown-prefix-not-rejected-with-validation-error", **w)
             elif o[0] != "ret" or o[1].prefix != want or o[1].identifier != "1":
                 violation(["C15"], "ref:converter-context", "prefix-not-standardised-through-converter", expected=want, **w)
+            elif ":" not in want and (o[1].curie != want + ":1" or type(o[1]).from_curie(o[1].curie, *(("n",) if type(o[1]) is api.NamedReference else ())) != o[1]):
+                # (only where the standardised prefix is itself free of the separator - the property's quantifier)
+                # "print as prefix:identifier and parse back to an equal object" holds for the products of a validation
+                # context like for any reference (seed C15-V: the input string remembered as the printed form)
+                violation(["C15"], "ref:converter-context", "standardised-reference-prints-or-parses-back-differently", expected=want + ":1", printed=o[1].curie, **w)
         ow = sp.prefix_owner(p)
         probe.note_key(f"context:{'unknown' if ow is None else 'canon' if ow.prefix == p else 'syn'}:{'e' if p == '' else 'p'}",
                        ow is not None and (ow.prefix != p or p == "" or ow.prefix == ""))
